@@ -484,6 +484,128 @@ func (c *Ctx) sliceToArrayRule(rule string, fns []*ssa.Function) int {
 	return n
 }
 
+// divisorRule (T25): an integer division or remainder whose divisor is not a constant panics when the divisor is
+// zero. Every such operation in fns needs the divisor known non-zero: a dominating condition on that very value (or
+// on another load of the same field) that excludes zero (≠ 0, > k, ≥ k with k ≥ 1, == k with k ≠ 0), a divisor that
+// is a length + positive constant or a constant-valued table entry is not examined (recorded). Returns the number
+// of divisions by a non-constant examined.
+func (c *Ctx) divisorRule(rule string, fns []*ssa.Function) int {
+	n := 0
+	perFn := map[*ssa.Function]int{}
+	for _, f := range fns {
+		for _, b := range f.Blocks {
+			for _, in := range b.Instrs {
+				bo, ok := in.(*ssa.BinOp)
+				if !ok || (bo.Op != token.QUO && bo.Op != token.REM) {
+					continue
+				}
+				if bt, ok := bo.Type().Underlying().(*types.Basic); !ok || bt.Info()&types.IsInteger == 0 {
+					continue
+				}
+				if _, isK := bo.Y.(*ssa.Const); isK {
+					continue
+				}
+				n++
+				perFn[f]++
+				d := stripConv(bo.Y)
+				same := func(x ssa.Value) bool {
+					x = stripConv(x)
+					return x == d || sameLoad(x, d)
+				}
+				nonzero := false
+				for _, cf := range dominatingConds(b) {
+					op, other, ok := relFact(cf, same)
+					if !ok {
+						continue
+					}
+					k, isK := constInt(other)
+					switch op {
+					case token.NEQ:
+						nonzero = nonzero || (isK && k == 0)
+					case token.EQL:
+						nonzero = nonzero || (isK && k != 0)
+					case token.GTR:
+						nonzero = nonzero || (isK && k >= 0 && isUnsignedOrAny(bo.Y, k))
+					case token.GEQ:
+						nonzero = nonzero || (isK && k >= 1)
+					}
+				}
+				if !nonzero {
+					nonzero = c.nonZeroAtCallers(d, 0)
+				}
+				opname := "division"
+				if bo.Op == token.REM {
+					opname = "remainder"
+				}
+				construct := fmt.Sprintf("%s:%s #%d by a non-constant", load.FuncName(f), opname, perFn[f])
+				c.S.Check(nonzero, rule, construct, c.pos(bo.Pos()), "divisor known non-zero before the operation",
+					fmt.Sprintf("%s by %s, a value no dominating condition makes non-zero: a zero divisor panics (integer divide by zero) instead of being refused", opname, flow.Describe(bo.Y)))
+			}
+		}
+	}
+	c.S.Count("divisions_by_non_constant", n)
+	return n
+}
+
+// nonZeroAtCallers: v is a parameter of an unexported function all of whose call sites are static, and every caller
+// passes a non-zero constant, a value a dominating condition at the call site makes non-zero, or its own such parameter.
+func (c *Ctx) nonZeroAtCallers(v ssa.Value, depth int) bool {
+	p, ok := stripConv(v).(*ssa.Parameter)
+	if !ok || depth > 2 {
+		return false
+	}
+	fn := p.Parent()
+	if fn.Parent() == nil && fn.Object() != nil && fn.Object().Exported() {
+		return false
+	}
+	idx := -1
+	for i, q := range fn.Params {
+		if q == p {
+			idx = i
+		}
+	}
+	node := c.P.CallGraph().Nodes[fn]
+	if node == nil || idx < 0 {
+		return false
+	}
+	sites := 0
+	for _, e := range node.In {
+		if e.Site == nil || e.Caller.Func == nil || c.isTestFunc(e.Caller.Func) {
+			continue
+		}
+		cc := e.Site.Common()
+		if cc.IsInvoke() || cc.StaticCallee() != fn || idx >= len(cc.Args) {
+			return false
+		}
+		sites++
+		a := stripConv(cc.Args[idx])
+		if k, isK := constInt(a); isK {
+			if k == 0 {
+				return false
+			}
+			continue
+		}
+		okSite := false
+		for _, cf := range dominatingConds(e.Site.Block()) {
+			op, other, ok := relFact(cf, func(x ssa.Value) bool { x = stripConv(x); return x == a || sameLoad(x, a) })
+			if !ok {
+				continue
+			}
+			k, isK := constInt(other)
+			if (op == token.NEQ && isK && k == 0) || (op == token.GTR && isK && k >= 0) || (op == token.GEQ && isK && k >= 1) || (op == token.EQL && isK && k != 0) {
+				okSite = true
+			}
+		}
+		if !okSite && !c.nonZeroAtCallers(a, depth+1) {
+			return false
+		}
+	}
+	return sites > 0
+}
+
+// isUnsignedOrAny: v > k with k ≥ 0 excludes zero for signed and unsigned values alike.
+func isUnsignedOrAny(v ssa.Value, k int64) bool { return k >= 0 }
+
 // upperBoundedBefore: block b is dominated by an edge on which v (or the value
 // it was converted from, or another load of the same field) is known to be
 // below / at most something.
